@@ -213,12 +213,19 @@ func c08CloneReg(reg c14Registry) c14Registry {
 }
 
 // c08Gen generates the next request given the current acknowledged registry.
+var c08LongId = "t" + strings.Repeat("y", 244)
+
 func c08Gen(r *common.Rand, reg c14Registry, kf03Open bool, realClock bool, firstDef map[string]map[string]*model.GcRule, valPool ...string) c08Req {
 	if len(valPool) == 0 {
 		valPool = gen.Vals
 	}
 	parent := c14Parents[0]
 	id := common.Pick(r, c14Ids[:2])
+	if r.Chance(1, 12) {
+		// a table id of 245 bytes: fine as a directory name, too long once a storage layer appends a suffix to it.
+		// Creating it may be refused; if it is acknowledged, it has to survive restarts like any other table.
+		id = c08LongId
+	}
 	name := drive.TableName(parent, id)
 	m, live := reg[name]
 	metaPoints := []string{"disk.meta.enter", "disk.meta.afterMkdir", "disk.meta.afterTmp", "disk.meta.afterRename"}
@@ -242,7 +249,7 @@ func c08Gen(r *common.Rand, reg c14Registry, kf03Open bool, realClock bool, firs
 		if prev, ok := firstDef[name]; ok && r.Bool() {
 			fams = prev // the definition the table had when it was deleted
 		}
-		return c08Req{desc: fmt.Sprintf("CreateTable(%s,%s)", id, famString(fams)), valid: true,
+		return c08Req{desc: fmt.Sprintf("CreateTable(%s,%s)", truncStr(id, 20), famString(fams)), valid: id != c08LongId,
 			send: func(s *drive.Srv) drive.Status { return drive.CreateTable(s.Admin, parent, id, fams) },
 			apply: func(reg c14Registry) {
 				nm := model.NewTable()
